@@ -30,6 +30,8 @@ type Walk struct {
 	Bodies   [][2]int // [start,end) of function bodies (after the locals) in the input
 	MaxLocal uint64   // largest declared local count of one function
 	Err      string
+	// sizes of the index spaces (imports included)
+	NTypes, NFuncs, NTables, NMems, NGlobals, NElems, NDatas uint64
 }
 
 type walkErr string
@@ -128,6 +130,7 @@ func (w *Walk) section(id byte, p *int, end int) {
 	switch id {
 	case 1:
 		n := w.u32(p, "type-count", 96)
+		w.NTypes = n
 		for i := uint64(0); i < n; i++ {
 			w.byte1(p, "type-form")
 			k := w.u32(p, "type-params", 1)
@@ -143,35 +146,43 @@ func (w *Walk) section(id byte, p *int, end int) {
 			switch w.byte1(p, "import-kind") {
 			case 0:
 				w.u32(p, "import-typeidx", 0)
+				w.NFuncs++
 			case 1:
 				w.byte1(p, "reftype")
 				w.limits(p, "import-table")
+				w.NTables++
 			case 2:
 				w.limits(p, "import-mem")
+				w.NMems++
 			case 3:
 				w.skip(p, 2, "import-global")
+				w.NGlobals++
 			default:
 				panic(walkErr("import kind"))
 			}
 		}
 	case 3:
 		n := w.u32(p, "function-count", 4)
+		w.NFuncs += n
 		for i := uint64(0); i < n; i++ {
 			w.u32(p, "function-typeidx", 0)
 		}
 	case 4:
 		n := w.u32(p, "table-count", 32)
+		w.NTables += n
 		for i := uint64(0); i < n; i++ {
 			w.byte1(p, "reftype")
 			w.limits(p, "table")
 		}
 	case 5:
 		n := w.u32(p, "memory-count", 0)
+		w.NMems += n
 		for i := uint64(0); i < n; i++ {
 			w.limits(p, "mem")
 		}
 	case 6:
 		n := w.u32(p, "global-count", 48)
+		w.NGlobals += n
 		for i := uint64(0); i < n; i++ {
 			w.skip(p, 2, "globaltype")
 			w.constExpr(p)
@@ -180,13 +191,14 @@ func (w *Walk) section(id byte, p *int, end int) {
 		n := w.u32(p, "export-count", 40)
 		for i := uint64(0); i < n; i++ {
 			w.name(p, "export-name-len")
-			w.byte1(p, "export-kind")
-			w.u32(p, "export-index", 0)
+			k := w.byte1(p, "export-kind")
+			w.u32(p, "export-index-"+[]string{"func", "table", "mem", "global", "other"}[min(int(k), 4)], 0)
 		}
 	case 8:
 		w.u32(p, "start-index", 0)
 	case 9:
 		n := w.u32(p, "element-count", 80)
+		w.NElems = n
 		for i := uint64(0); i < n; i++ {
 			prefix := w.u32(p, "element-prefix", 0)
 			if prefix > 7 {
@@ -232,6 +244,7 @@ func (w *Walk) section(id byte, p *int, end int) {
 		}
 	case 11:
 		n := w.u32(p, "data-count", 64)
+		w.NDatas = n
 		for i := uint64(0); i < n; i++ {
 			prefix := w.u32(p, "data-prefix", 0)
 			if prefix == 2 {
